@@ -425,6 +425,65 @@ class CallGraph:
                     work.append(c)
         return seen
 
+    def reachable_ctx(self, roots, stop=None):
+        """Like reachable(), with one level of constant propagation for
+        boolean parameters: a call guarded by ``if p:`` inside a callee is
+        not followed when the call site that led there passed ``p=False``
+        (and vice versa).  Keys are (fq, frozenset of (param, const))."""
+        seen = {}
+        work = []
+        for r in roots:
+            k = (r.fq, frozenset())
+            seen[k] = (r, None, None)
+            work.append((r, frozenset()))
+        while work:
+            f, ctx = work.pop()
+            if stop is not None and stop(f):
+                continue
+            cdict = dict(ctx)
+            cfg = cfg_of(f.node) if cdict else None
+            for c, call in self.edges(f):
+                if cdict:
+                    n = cfg.node(call)
+                    dead = n is None
+                    if n is not None:
+                        for a in cfg.guards(n):
+                            if a[0] == 'truthy' and a[1] in cdict and \
+                                    cdict[a[1]] is False:
+                                dead = True
+                            if a[0] == 'falsy' and a[1] in cdict and \
+                                    cdict[a[1]] is True:
+                                dead = True
+                    if dead:
+                        continue
+                # constants bound at this call site
+                params = A.params_of(c.node)
+                if c.cls and params and params[0] in ('self', 'cls'):
+                    params = params[1:]
+                b = {}
+                for p_, a_ in zip(params, call.args):
+                    if isinstance(a_, ast.Constant) and isinstance(
+                            a_.value, bool):
+                        b[p_] = a_.value
+                for kw in call.keywords:
+                    if kw.arg and isinstance(kw.value, ast.Constant) and \
+                            isinstance(kw.value.value, bool):
+                        b[kw.arg] = kw.value.value
+                k = (c.fq, frozenset(b.items()))
+                if k not in seen:
+                    seen[k] = (c, (f.fq, ctx), call)
+                    work.append((c, frozenset(b.items())))
+        return seen
+
+    def path_to_ctx(self, seen, key):
+        chain = []
+        cur = key
+        while cur is not None:
+            f, parent, call = seen[cur]
+            chain.append(f.qual)
+            cur = parent
+        return list(reversed(chain))
+
     def path_to(self, seen, fq):
         chain = []
         cur = fq
